@@ -138,7 +138,7 @@ def call_shape(prog, rep, fam, mi):
 def run(prog, rep):
     rep.explanation = EXPL
     rep.assumptions = ASSUME
-    dispatch(prog, rep)
+    rep.part(dispatch, prog, rep)
     for fam in families(prog, include_generic=True):
         if fam.generic:
             mf = fam.m["_fit_mle"]
@@ -158,10 +158,10 @@ def run(prog, rep):
             continue
         mi = MleInfo(prog, fam)
         rep.analysed(mi.fn)
-        call_shape(prog, rep, fam, mi)
+        rep.part(call_shape, prog, rep, fam, mi)
         # C12.assign: same obligations as C11.unmap, reported under this property's rule id
         sub = _Relabel(rep, "C11.unmap", "C12.assign")
-        c11.unmap(prog, sub, fam, mi)
+        rep.part(c11.unmap, prog, sub, fam, mi)
     rep.expect_min("C12.dispatch", 4)
     rep.expect_min("C12.call", 22)
     rep.expect_min("C12.assign", 15)
